@@ -16,21 +16,22 @@ import (
 )
 
 type Script struct {
-	RunID       string
-	Offset      int64  // replication offset announced with +FULLRESYNC (stream byte i has offset Offset+i, i from 1)
-	PreNewlines int    // '\n' keep-alives before the +FULLRESYNC / +CONTINUE line
-	MidNewlines int    // '\n' keep-alives between the status line and $<n>
-	StatusCase  int    // 0 upper, 1 lower, 2 mixed
-	RDB         []byte
-	Stream      []byte
-	Frags       []int  // write sizes, cycled; a 0 entry is a pause of PauseUs
-	PauseUs     int
-	DropAt      []int  // drop the connection right after this many stream bytes (cumulative, ascending)
-	RefuseNext  int    // answer the next N PSYNC attempts after a drop with -LOADING
-	IdleAt      []int  // after this many stream bytes stay idle for IdleMs before continuing
-	IdleMs      int
-	EOFAfter    bool   // close the connection after the whole stream has been sent
-	RefuseFirst int    // answer the first N PSYNC attempts of all with -LOADING
+	RunID           string
+	Offset          int64 // replication offset announced with +FULLRESYNC (stream byte i has offset Offset+i, i from 1)
+	PreNewlines     int   // '\n' keep-alives before the +FULLRESYNC / +CONTINUE line
+	MidNewlines     int   // '\n' keep-alives between the status line and $<n>
+	StatusCase      int   // 0 upper, 1 lower, 2 mixed
+	RDB             []byte
+	Stream          []byte
+	Frags           []int // write sizes, cycled; a 0 entry is a pause of PauseUs
+	PauseUs         int
+	DropAt          []int // drop the connection right after this many stream bytes (cumulative, ascending)
+	RefuseNext      int   // answer the next N PSYNC attempts after a drop with -LOADING
+	IdleAt          []int // after this many stream bytes stay idle for IdleMs before continuing
+	IdleMs          int
+	EOFAfter        bool // close the connection after the whole stream has been sent
+	RefuseFirst     int  // answer the first N PSYNC attempts of all with -LOADING
+	ContinueDelayMs int  // after +CONTINUE stay silent this long before the first stream byte
 	// RdbGate (when not nil): every full resynchronisation stops after RdbGateAt bytes of the RDB until a value can be
 	// received from the channel; the events "rdb-start" (before the first RDB byte) and "rdb-end" (before the last
 	// part of it is written) are reported.
@@ -60,7 +61,9 @@ type Server struct {
 	conns   []net.Conn
 }
 
-func New(sc Script, sink func(Event)) *Server { return &Server{sc: sc, sink: sink, refuse: sc.RefuseFirst} }
+func New(sc Script, sink func(Event)) *Server {
+	return &Server{sc: sc, sink: sink, refuse: sc.RefuseFirst}
+}
 
 func (s *Server) Listen() (string, error) {
 	ln, err := net.Listen("tcp", "127.0.0.1:0")
@@ -287,6 +290,13 @@ func (s *Server) send(c net.Conn, id int, full bool, from int, psync bool) {
 		head = append(head, s.sc.RDB...)
 	}
 	stream := s.sc.Stream[from:]
+	if !full && psync && s.sc.ContinueDelayMs > 0 {
+		if _, err := c.Write(head); err != nil {
+			return
+		}
+		head = nil
+		time.Sleep(time.Duration(s.sc.ContinueDelayMs) * time.Millisecond)
+	}
 	all := append(append([]byte{}, head...), stream...)
 	pos := 0
 	fi := 0
